@@ -56,6 +56,14 @@ pub struct RetryCase {
     pub budget: Budget,
     pub requests: Vec<Request>,
     pub order: Vec<u8>,
+    /// once every request has arrived the clock advances in steps of this many ms (a stalled
+    /// executor sees timers late; waiting longer than the backoff is allowed, shorter is not)
+    #[serde(default = "one")]
+    pub step_ms: u64,
+}
+
+fn one() -> u64 {
+    1
 }
 
 const CUSTOM_MS: [u64; 8] = [7, 2, 11, 0, 5, 1, 9, 3];
@@ -95,9 +103,10 @@ fn case_strategy(_tier: Tier) -> BoxedStrategy<RetryCase> {
         budget,
         prop::collection::vec(request, 1..=4),
         prop::collection::vec(any::<u8>(), 0..=32),
+        prop_oneof![5 => Just(1u64), 1 => Just(2u64), 1 => Just(5u64), 1 => 2u64..=40],
     )
         .prop_map(
-            |(max_attempts, per_request, backoff, predicate, budget, requests, order)| RetryCase {
+            |(max_attempts, per_request, backoff, predicate, budget, requests, order, step_ms)| RetryCase {
                 max_attempts,
                 per_request,
                 backoff,
@@ -105,6 +114,7 @@ fn case_strategy(_tier: Tier) -> BoxedStrategy<RetryCase> {
                 budget,
                 requests,
                 order,
+                step_ms,
             },
         )
         .boxed()
@@ -285,9 +295,15 @@ async fn interp(case: &RetryCase) -> Verdict {
     let n = case.requests.len();
     let mut task = vec![None; n];
     let horizon = 6_000u64;
-    for t in 0..=horizon {
+    let last_arrival = case.requests.iter().map(|r| r.at).max().unwrap_or(0);
+    let mut t = 0u64;
+    while t <= horizon {
         if t > 0 {
+            // after the last arrival the clock may jump: everything due in between fires late
+            let step = if t > last_arrival { case.step_ms.max(1) } else { 1 };
+            crate::vclock::advance_ms(step - 1);
             sim.begin_instant().await;
+            t += step - 1;
         }
         for (i, r) in case.requests.iter().enumerate() {
             if r.at == t {
@@ -314,6 +330,7 @@ async fn interp(case: &RetryCase) -> Verdict {
         if inner.shared.calls() > allowed || sim.livelock {
             break;
         }
+        t += 1;
     }
 
     let snap = log.snapshot();
@@ -524,6 +541,9 @@ async fn interp(case: &RetryCase) -> Verdict {
     }
     if case.per_request {
         classes.push("per_request_max_attempts");
+    }
+    if case.step_ms > 1 {
+        classes.push("coarse_clock_steps");
     }
     Verdict {
         violations,
